@@ -499,6 +499,15 @@ def o_positions(case, lines):
         if e:
             f = e[0].split(" ")
             row, col = int(f[2]), int(f[3])
+            # Error::pos() reports the position the variant carries, and the Display text ends with it
+            for tag, what in (("EV", "the position carried by the variant"), ("ED", "the position in the Display text")):
+                ev = [l for l in lines if l.startswith(tag + " ")]
+                if ev:
+                    g = ev[0].split(" ")
+                    if g[1] != "-" and (int(g[1]), int(g[2])) != (row, col):
+                        return "Error::pos() = %d:%d, but %s is %s:%s (%s)" % (row, col, what, g[1], g[2], f[1])
+                    if g[1] == "-" and tag == "EV" and (row, col) != (1, 1):
+                        return "Error::pos() = %d:%d for the position-less variant %s (documented: 1:1)" % (row, col, f[1])
             ls = data.split(b"\n")
             if not (1 <= row <= len(ls)):
                 return "error row %d outside 1..%d" % (row, len(ls))
